@@ -35,10 +35,7 @@ func GnosisSelect(queue []QueuedTx, start int64, slot uint64, gasLimit uint64) [
 		if tx.Index < start {
 			continue
 		}
-		if tx.Index != next {
-			break // a gap in the queue: nothing beyond it is contiguous
-		}
-		next++
+		_ = next // queue order from the pointer: the known transactions with index >= start
 		gas += tx.GasLimit
 		if gas > gasLimit && taken >= 1 {
 			break
